@@ -7,6 +7,7 @@ ok / fail / crash).
 import Helm.Model.Ledger
 import Helm.Lemmas.Ledger
 import Helm.Lemmas.LedgerSuccess
+import Helm.Lemmas.RollbackSuccess
 import Helm.Gen.Tables
 import Helm.Spec.Skeletons
 
@@ -162,6 +163,18 @@ theorem upgrade_success_spec (fl : UpgradeFlags) (p : Nat) (l : Ledger) (lastRec
 theorem install_success_spec (fl : InstallFlags) (p : Nat) (hdry : fl.dryRun = false) :
     (install fl {} {} p []).2 = .success ∧ (install fl {} {} p []).1.ledger = [⟨1, .deployed, p⟩] :=
   install_success fl p hdry
+
+/-- A fault-free rollback (no history limit) on ANY history with unique revisions: success; every
+revision that was marked deployed is marked superseded; the new revision is one above the highest
+and carries the content (chart, values, manifest: the payload) of the target revision, marked
+deployed; nothing else changes. -/
+theorem rollback_success_spec (fl : RollbackFlags) (l : Ledger) (cur prevRec : Rec)
+    (hdry : fl.dryRun = false) (hmax : fl.maxHistory = 0) (hnd : (revs l).Nodup)
+    (hlast : last? l = some cur)
+    (hprev : get? l (if fl.version = 0 then cur.rev - 1 else fl.version) = some prevRec) :
+    (rollback fl {} l).2 = .success ∧
+    (rollback fl {} l).1.ledger = supersedeDeployed l ++ [⟨cur.rev + 1, .deployed, prevRec.payload⟩] :=
+  rollback_success fl l cur prevRec hdry hmax hnd hlast hprev
 
 /-- premises satisfiable: a history with a failed revision on top of the deployed one -/
 example : (upgrade {} {} {} 9 [⟨1, .superseded, 1⟩, ⟨2, .deployed, 2⟩, ⟨3, .failed, 3⟩]).1.ledger =
